@@ -1,0 +1,31 @@
+//go:build verif
+
+package dastard
+
+// Verification hooks for the output-file check (C05). Build tag "verif" only.
+// Setters that put a prepared (never started) bench source into the state a real source's
+// Sample/PrepareChannels would have produced: channel identity, array geometry, sub-frame
+// parameters, sample rate. No logic of dastard is changed here.
+
+// VerifC05SetSource sets the source-wide values that writeControlStart copies into every header.
+func (ds *AnySource) VerifC05SetSource(name string, subframeDivisions int, sampleRate float64) {
+	ds.name = name
+	ds.subframeDivisions = subframeDivisions
+	ds.sampleRate = sampleRate
+	for _, dsp := range ds.processors {
+		dsp.SampleRate = sampleRate
+	}
+}
+
+// VerifC05SetChannel sets channel i's name, number, position in the readout array and sub-frame offset.
+func (ds *AnySource) VerifC05SetChannel(i int, name string, number, row, col, rows, cols, subframeOffset int) {
+	ds.chanNames[i] = name
+	ds.chanNumbers[i] = number
+	ds.rowColCodes[i] = rcCode(row, col, rows, cols)
+	ds.subframeOffsets[i] = subframeOffset
+	ds.processors[i].Name = name
+	ds.processors[i].ChannelNumber = number
+}
+
+// VerifC05BuildInfo returns the version strings that the headers carry.
+func VerifC05BuildInfo() (version, githash string) { return Build.Version, Build.Githash }
